@@ -45,6 +45,14 @@ def standin_clifford_circuits(tier, seed):
             elif n >= 2 and r < 0.55:
                 g = cirq.CliffordGate.from_op_list([cirq.H(qs[0]), cirq.CNOT(qs[0], qs[1]), cirq.S(qs[1])], [qs[0], qs[1]])
                 ops.append(g.on(*rng.sample(qs, 2)))
+            elif r < 0.68:
+                # Pauli products used as operations: with a phase, and products that collapse to a phase times the identity
+                x = rng.choice(qs)
+                y = rng.choice(qs)
+                ops.append(rng.choice([
+                    lambda: cirq.Z(x) * cirq.X(x) * cirq.Y(x), lambda: -1 * cirq.X(x) * cirq.X(x), lambda: 1j * cirq.X(x) * (cirq.Z(y) if y != x else 1), lambda: -cirq.Y(x) * (cirq.X(y) if y != x else 1),
+                    lambda: cirq.DensePauliString("I" * min(n, 2), coefficient=-1j).on(*qs[: min(n, 2)]), lambda: cirq.DensePauliString("XZ"[: min(n, 2)], coefficient=1j).on(*rng.sample(qs, min(n, 2))),
+                    lambda: cirq.DensePauliString("IY"[: min(n, 2)], coefficient=-1).on(*rng.sample(qs, min(n, 2)))])())
             else:
                 ops.append(rng.choice(one).on(rng.choice(qs)))
         c = cirq.Circuit(ops)
